@@ -45,7 +45,8 @@ def _sample_point(vars_, witness, rnd, scale_idx):
             elif v.id in T._NONNEG:
                 env[name] = rnd.randint(0, 24) / 8.0
             else:
-                env[name] = rnd.randint(-24, 24) / 8.0
+                x = rnd.randint(-24, 24) / 8.0
+                env[name] = x if x != 0.0 else 0.0625  # generic points: exact zeros sit on definedness boundaries
         elif v.sort == T.Z:
             w = int(witness.get(name, 0))
             env[name] = w if scale_idx == 0 else w + rnd.randint(-3, 3)
@@ -139,7 +140,79 @@ def z3_check(constraints_terms, negated_goal_terms, timeout_ms, box=None, seed=0
     return str(r), env, time.time() - t0
 
 
-def discharge(pairs, path, defined, witness, timeout_s=10.0, seed=0, norm_first=False, labels=None, raw_first_s=1.0):
+def logsplit(t):
+    """t = rem + sum_i c_i * log(a_i) with rational c_i; returns (rem term, [(c_i, a_i)]) or None if no top-level log"""
+    logs = []
+    rem = Fraction(0)
+    stack = [(t, Fraction(1))]
+    found = False
+    while stack:
+        x, c = stack.pop()
+        if not isinstance(x, T.Term):
+            rem = T.add(rem, T.mul(x, c))
+            continue
+        if x.op == "uf" and x.args[0] == "log":
+            logs.append((c, x.args[1]))
+            found = True
+        elif x.op == "add":
+            stack.append((x.args[0], c))
+            stack.append((x.args[1], c))
+        elif x.op == "neg":
+            stack.append((x.args[0], -c))
+        elif x.op == "mul" and not isinstance(x.args[1], T.Term) and isinstance(x.args[1], Fraction):
+            stack.append((x.args[0], c * x.args[1]))
+        elif x.op == "mul" and not isinstance(x.args[0], T.Term) and isinstance(x.args[0], Fraction):
+            stack.append((x.args[1], c * x.args[0]))
+        else:
+            rem = T.add(rem, T.mul(x, c))
+    if not found:
+        return None
+    return rem, logs
+
+
+def _log_product(logs, D):
+    num, den = Fraction(1), Fraction(1)
+    for c, a in logs:
+        e = c * D
+        assert e.denominator == 1
+        e = int(e)
+        if a.op == "sqrt" if isinstance(a, T.Term) else False:
+            if e % 2 == 0:
+                a, e = a.args[0], e // 2
+        if e > 0:
+            num = T.mul(num, T.powi(a, e))
+        elif e < 0:
+            den = T.mul(den, T.powi(a, -e))
+    return num, den
+
+
+def expand_log_pairs(pairs):
+    """replace log-linear equalities by (remainder equality, product-of-arguments equality): sufficient, not necessary"""
+    out = []
+    changed = False
+    for a, b in pairs:
+        sa = logsplit(a) if isinstance(a, T.Term) else None
+        sb = logsplit(b) if isinstance(b, T.Term) else None
+        if sa is None and sb is None:
+            out.append((a, b))
+            continue
+        ra, la = sa if sa is not None else (a, [])
+        rb, lb = sb if sb is not None else (b, [])
+        import math
+        D = 1
+        for c, _ in la + lb:
+            D = D * c.denominator // math.gcd(D, c.denominator)
+        D *= 2  # sqrt arguments halve exponents
+        na, da = _log_product(la, D)
+        nb, db = _log_product(lb, D)
+        out.append((ra, rb))
+        out.append((T.mul(na, db), T.mul(nb, da)))
+        changed = True
+    return out, changed
+
+
+def discharge(pairs, path, defined, witness, timeout_s=10.0, seed=0, norm_first=False, labels=None, raw_first_s=1.0, norm_budget_s=None):
+    norm_budget_s = norm_budget_s or max(5.0, 3 * timeout_s)
     """pairs: list of (lhs cell, rhs cell), equality obligations (bool cells: lhs == rhs as iff)."""
     t0 = time.time()
     live = []
@@ -154,14 +227,31 @@ def discharge(pairs, path, defined, witness, timeout_s=10.0, seed=0, norm_first=
     if not live:
         return Verdict("proved", "SYNTACTIC", time.time() - t0, detail={"pairs": len(pairs)})
     lp = [(a, b) for _, a, b in live]
-    # 1. seeded refutation
+    # 1. seeded refutation (on the original terms)
     env, j, tried = seeded_refute(lp, path, defined, witness, seed=seed)
     if env is not None:
         return Verdict("refuted", "SEEDED", time.time() - t0, model=env, detail={"pair": live[j][0], "points_tried": tried})
+    lp2, had_logs = expand_log_pairs(lp)
+    if had_logs:
+        lp = [(a, b) for a, b in lp2 if not (a is b or (T.is_const(a) and T.is_const(b) and a == b))]
+        if not lp:
+            return Verdict("proved", "SYNTACTIC", time.time() - t0, detail={"pairs": len(pairs), "log_linear": True})
     queries = 0
     detail = {"pairs": len(pairs), "live": len(live), "seed_points": tried}
+    if had_logs:
+        detail["log_linear"] = True
 
     def try_norm():
+        from .timebox import timebox
+
+        try:
+            with timebox(norm_budget_s, NormFail(f"normaliser time budget {norm_budget_s}s exceeded")):
+                return _try_norm()
+        except NormFail as e:
+            detail["norm_fail"] = str(e)
+            return None
+
+    def _try_norm():
         try:
             N = Normaliser([x for p in lp for x in p], fixed=path_fixed(path))
             residual = []
@@ -175,6 +265,7 @@ def discharge(pairs, path, defined, witness, timeout_s=10.0, seed=0, norm_first=
             return None
 
     neg = [T.lnot(T.eq(a, b)) for a, b in lp]
+    has_uf = any(t.op == "uf" for t in T.reachable([x for p in lp for x in p] + list(path) + list(defined)))
 
     def try_raw(tmo):
         nonlocal queries
@@ -188,6 +279,9 @@ def discharge(pairs, path, defined, witness, timeout_s=10.0, seed=0, norm_first=
         if r == "unsat":
             return Verdict("proved", "RAW", time.time() - t0, detail=detail, queries=queries)
         if r == "sat":
+            if has_uf:
+                detail["raw"] = "sat-with-uninterpreted-functions (not a counterexample)"
+                return None
             full = dict(witness)
             full.update(menv)
             return Verdict("refuted", "RAW", time.time() - t0, model=full, detail=detail, queries=queries)
